@@ -66,8 +66,14 @@ func newCfgModel() cfgModel {
 	for _, k := range cfgKeys {
 		m[k.Section+"."+k.Name] = map[int]bool{k.Default: true}
 	}
+	// the CLI binary: which path is probed (index into cliPaths) and whether the
+	// integration is enabled; observed through the code actions offered
+	m["cli.path"] = map[int]bool{0: true}
+	m["cli.enabled"] = map[int]bool{1: true}
 	return m
 }
+
+var cliPaths = []string{"hledger", "hledger-x", "hledger-missing"}
 
 func (m cfgModel) clone() cfgModel {
 	c := cfgModel{}
@@ -105,6 +111,12 @@ func (m cfgModel) String() string {
 			continue
 		}
 		parts = append(parts, fmt.Sprintf("%s=%v", key, vs))
+	}
+	if p, ok := m.one("cli.path"); !ok || p != 0 {
+		parts = append(parts, fmt.Sprintf("cli.path=%v", keysInt(m["cli.path"])))
+	}
+	if e, ok := m.one("cli.enabled"); !ok || e != 1 {
+		parts = append(parts, fmt.Sprintf("cli.enabled=%v", keysInt(m["cli.enabled"])))
 	}
 	return "{" + strings.Join(parts, " ") + "}"
 }
@@ -198,6 +210,23 @@ func (m cfgModel) apply(p any) {
 		if v, ok := obj[key]; ok {
 			if vals, ok := cfgInterpret(k, v, m[key]); ok {
 				m[key] = vals
+			}
+		}
+	}
+	// cli section (generated well-formed only: a path from cliPaths, a boolean)
+	if sec, ok := obj["cli"].(map[string]any); ok {
+		if p, ok := sec["path"].(string); ok {
+			for i, cp := range cliPaths {
+				if cp == p {
+					m["cli.path"] = map[int]bool{i: true}
+				}
+			}
+		}
+		if e, ok := sec["enabled"].(bool); ok {
+			if e {
+				m["cli.enabled"] = map[int]bool{1: true}
+			} else {
+				m["cli.enabled"] = map[int]bool{0: true}
 			}
 		}
 	}
@@ -328,8 +357,13 @@ func genCfgPayload(c *simrt.Chooser) (payload any, shape string) {
 		obj[sec] = "oops"
 		shapes = append(shapes, sec+":section-not-object")
 	}
-	if c.Pct("cli", 20) {
-		obj["cli"] = map[string]any{"path": "hledger-x", "timeout": 5000, "enabled": true}
+	if c.Pct("cli", 45) {
+		sec := map[string]any{"path": cliPaths[c.Choose("cli-path", len(cliPaths))], "timeout": 5000}
+		if c.Bool("cli-enabled-given") {
+			sec["enabled"] = c.Pct("cli-enabled", 75)
+		}
+		obj["cli"] = sec
+		shapes = append(shapes, "cli")
 	}
 	var out any = obj
 	if c.Pct("wrapper", 40) {
@@ -375,6 +409,8 @@ type c19obs struct {
 	amountCol    int
 	inlineItems  int
 	inlineIndent int
+	codeActions  int // number of code actions offered (-1 not asked)
+	execOK       bool
 	trouble      string
 	fmtLines     []string
 }
@@ -542,6 +578,17 @@ func c19Observe(d *Driver, uri string, counter *int) c19obs {
 	} else {
 		o.trouble = "inlineCompletion not answered"
 	}
+	// code actions: offered iff the CLI integration is enabled and the binary
+	// at the configured path answered the probe
+	o.codeActions = -1
+	if r := d.Call("verif/codeAction", J{"textDocument": docID(uri), "range": rng(0, 0, 0, 0), "context": J{"diagnostics": []any{}}}); r != nil {
+		var acts []json.RawMessage
+		json.Unmarshal(r.Result, &acts)
+		o.codeActions = len(acts)
+	} else {
+		o.trouble = "codeAction not answered"
+	}
+	o.execOK = d.Env.Exec.VersionOK
 	return o
 }
 
@@ -635,6 +682,14 @@ func c19Check(m cfgModel, o c19obs) (string, string) {
 			}
 		}
 	}
+	if p, ok := m.one("cli.path"); ok && o.codeActions >= 0 {
+		if en, ok := m.one("cli.enabled"); ok {
+			want := o.execOK && en == 1 && cliPaths[p] != "hledger-missing"
+			if (o.codeActions > 0) != want {
+				return "cli.path", fmt.Sprintf("cli.path is %q (installed: %v), cli.enabled is %v, but %d code actions are offered", cliPaths[p], o.execOK && cliPaths[p] != "hledger-missing", en == 1, o.codeActions)
+			}
+		}
+	}
 	if ic, ok := m.one("features.inlineCompletion"); ok {
 		if (o.inlineItems > 0) != (ic == 1) {
 			return "features.inlineCompletion", fmt.Sprintf("inlineCompletion is %v but the request returned %d items", ic == 1, o.inlineItems)
@@ -659,6 +714,9 @@ func (c19) Run(ctx *RunCtx) {
 	c := ctx.C
 	env := NewEnv()
 	env.Disk.Env["HOME"] = "/sim"
+	// hledger is installed on three machines out of four (a binary whose name
+	// says "missing" on none): code actions show which binary was probed
+	env.Exec.VersionOK = c.Pct("hledger-installed", 75)
 	env.Disk.WriteFile("/sim/ws/inc1.journal", []byte("; inc1\ninclude inc2.journal\n"))
 	env.Disk.WriteFile("/sim/ws/inc2.journal", []byte("; inc2\ninclude inc3.journal\n"))
 	env.Disk.WriteFile("/sim/ws/inc3.journal", []byte("; inc3\n"))
@@ -818,7 +876,7 @@ func (c19) Run(ctx *RunCtx) {
 			}
 		}
 		o := c19Observe(d, uri, &counter)
-		ctx.T("observed after event %d: codes=%v depthMsg=%d sizeMsg=%d completion=%d counts=%v fuzzy=%d indent=%d aligned=%v col=%d inline=%d/%d  model=%s fmt=%q", ev, o.codes, o.depthMsg, o.sizeMsg, o.complCount, o.complCounts, o.fuzzyCount, o.indent, o.aligned, o.amountCol, o.inlineItems, o.inlineIndent, model, o.fmtLines)
+		ctx.T("observed after event %d: codes=%v depthMsg=%d sizeMsg=%d completion=%d counts=%v fuzzy=%d indent=%d aligned=%v col=%d inline=%d/%d codeActions=%d  model=%s fmt=%q", ev, o.codes, o.depthMsg, o.sizeMsg, o.complCount, o.complCounts, o.fuzzyCount, o.indent, o.aligned, o.amountCol, o.inlineItems, o.inlineIndent, o.codeActions, model, o.fmtLines)
 		if key, msg := c19Check(model, o); key != "" {
 			adopted := false
 			for _, alt := range alts {
@@ -853,6 +911,18 @@ func (c19) Run(ctx *RunCtx) {
 }
 
 func answerRound(ctx *RunCtx, c *simrt.Chooser, d *Driver, model cfgModel, shapes *[]string, applied *int, late bool, never map[string]bool) (payloads []any) {
+	live := 0
+	for _, id := range d.Sess.PendingServerRequests() {
+		if !never[id] {
+			live++
+		}
+	}
+	// several refreshes in flight: half of the time their answers contrast in
+	// two keys that are applied by different code (the CLI binary, probed by
+	// running it, and a plain value), so that "each key ends with the value of
+	// the SAME answer" is observable
+	contrast := live >= 2 && c.Pct("contrasting-answers", 50)
+	nth := 0
 	for _, id := range d.Sess.PendingServerRequests() {
 		if never[id] {
 			continue
@@ -864,6 +934,23 @@ func answerRound(ctx *RunCtx, c *simrt.Chooser, d *Driver, model cfgModel, shape
 		switch kind {
 		case 0:
 			p, sh := genCfgPayload(c)
+			if obj, ok := p.(map[string]any); ok && contrast {
+				if inner, ok := obj["hledger"].(map[string]any); ok {
+					obj = inner
+				}
+				obj["cli"] = map[string]any{"path": []string{"hledger-x", "hledger-missing"}[nth%2], "enabled": true}
+				delete(obj, "cli.path")
+				delete(obj, "cli.enabled")
+				delete(obj, "completion.maxResults")
+				if sec, ok := obj["completion"].(map[string]any); ok {
+					sec["maxResults"] = 2 + nth
+				} else {
+					obj["completion"] = map[string]any{"maxResults": 2 + nth}
+				}
+				sh += ",contrast"
+				nth++
+				ctx.Stats.Inc("probe:contrasting-answers-to-refreshes-in-flight")
+			}
 			*shapes = append(*shapes, "reply:"+sh)
 			d.Sess.Respond(id, []any{p}, nil)
 			model.apply(toGeneric(p))
